@@ -5,13 +5,21 @@ Trace checker for the concurrent hash table (`src/rculfhash.c` under the shim): 
 
 L1: every thread's event stream must be exactly what the transliterated C text below produces —
 `_cds_lfht_add` (all modes, bucket path), `_cds_lfht_gc_bucket`, `_cds_lfht_replace`, `_cds_lfht_del`,
-lookup / next_duplicate / next / first, the populate / remove partition loops and the level loops of
-`init_table` / `fini_table` — same `next` words, same `ht->size` accesses, same values, in the same order.
-Control flow of L1 follows the values of the trace.  L2: at every such access the label of the proven
-model (`UrcuVerif.Lfht.Conc`) is replayed on `step` and must be enabled; before the access the model's
-memory word must equal the value the implementation saw, and every API result must equal the model's.
-Skipped by location name: the flavor's own events (bracketed by `FLV_BEGIN/FLV_END`), the work queue,
-split counters / `count`, `resize_target`, `resize_initiated`, `in_progress_destroy`.
+lookup / next_duplicate / next / first, the API glue (`cds_lfht_replace`'s NULL / reverse-hash / key tests,
+`cds_lfht_del(NULL)`, the `for (;;)` of `cds_lfht_add_replace`), the populate / remove partition loops,
+`partition_resize_helper` (thread count and shares of the helper threads, create / join) and the level loops of
+`init_table` / `fini_table` — same `next` words, same `ht->size` accesses, same values, same (or stronger) memory
+orders, in the same order.  Control flow of L1 follows the values of the trace.
+L2: at every such access the label of the proven model (`UrcuVerif.Lfht.Conc`) is replayed on `step` and must be
+enabled; before the access the model's memory word must equal the value the implementation saw (and after every
+RMW the value it wrote), every API result must equal the model's, the model's `uaf` flag (dereference of NULL /
+freed / never linked memory) is an error, `FREE node` lines of the scenario (free after a grace period) and table
+frees are replayed as `reclaim` / `tblFree` (enabled only after the model's grace period).
+Skipped: by location name the flavor's own events (bracketed by `FLV_BEGIN/FLV_END`, mapped to `rlock`/`runlock`/
+`gpStart`/`gpEnd`), the work queue, split counters / `count`, `resize_target`, `resize_initiated`,
+`in_progress_destroy` (resize arbitration: C09); barriers, spin hints, futex and thread-exit events; everything after
+`CALL destroy` (teardown: C09 + the scenario's quarantine oracle).  Table creation (`cds_lfht_create_bucket`, plain
+stores) is replayed silently on the model.
 -/
 open Driver UrcuVerif UrcuVerif.Lfht UrcuVerif.Lfht.Conc
 
@@ -29,11 +37,18 @@ structure G where
   c : Cfg := { n := 64 }
   s : State := init
   model : Bool := true
-  names : List (String × Nat) := [("b0_0", 1)]
+  names : List (String × Nat) := []             -- user nodes ("node<k>")
+  tbls : List (Nat × String × Nat) := [(0, "0", 1)]   -- every bucket table ever allocated: (order, generation, first node id)
+  big : Bool := false                           -- scenario names whole tables ("t<order>_<gen>+<byte offset>") instead of single buckets
+  cpus : Nat := 1                               -- nr_cpus_mask + 1 of the library (CFG line), for partition_resize_helper
+  helpers : List (Nat × (Nat × Nat × Nat × Bool)) := []   -- partition threads created and not yet started: tid ↦ (order, first index, len, grow)
+  pendingJoin : List (Nat × Nat) := []          -- (parent, helper): pthread_join called, completion seen at the parent's next event
   infos : Array Info := #[default, { name := "b0_0", rev := 0, key := 0, hash := 0, isB := true }]
-  tbl : List (Nat × Nat) := [(0, 1)]          -- L1's view of bucket_at
+  tbl : List (Nat × Nat) := [(0, 1)]          -- L1's view of bucket_at: (order, first node id) of the tables currently allocated
+  maxIdx : Nat := 1                           -- bucket indices ever allocated are < maxIdx
   its : List (Nat × (Nat × W)) := []          -- per-thread iterator
   outs : List (Nat × Out) := []           -- per thread: result of its last model step
+  inOp : List (Nat × String) := []          -- operation each thread is inside (coverage only)
   rzBusy : Nat := 0                         -- 0 = no resize in progress, 1 = growing, 2 = shrinking (coverage only)
   shutdown : Bool := false
   created : Bool := false
@@ -53,19 +68,28 @@ def modify (f : G → G) : M Unit := P.act fun g => .ok (f g)
 
 /-- The tables are computed HERE (strictly, `compact` returns a structure), the closures stored in the state are
 partial applications of `fromArr` to finished arrays.  (Writing `fromArr (tabulate f n) f` in a helper of type
-`Nat → α` gets eta-expanded by the compiler: the table would be rebuilt at every application — exponential.) -/
-def compact (s : State) : State :=
+`Nat → α` gets eta-expanded by the compiler: the table would be rebuilt at every application — exponential.)
+Beyond the table the fields fall back to `init`'s (identifiers ≥ `hi` are fresh, thread ids ≥ 64 never step, bucket
+indices ≥ `maxIdx` were never allocated): the old closure chain is dropped, otherwise every compaction would keep
+all earlier tables alive.  The fall-back is cross-checked on the first identifiers beyond the table. -/
+def compact (s : State) (maxIdx : Nat) : Except String State :=
   let n := s.hi
+  let bad := (List.range 4).any fun d =>
+    let p := n + d
+    s.nxt p != init.nxt p || s.life p != init.life p || s.freed p != init.freed p || s.isB p != init.isB p ||
+    s.wins p != init.wins p || s.dels p != init.dels p || s.ownRet p != init.ownRet p || s.tbl (maxIdx + d) != init.tbl (maxIdx + d)
+  if bad then .error "internal: model state is not default beyond `hi` / `maxIdx` (compaction would not be the identity)" else
   let aNxt := tabulate s.nxt n; let aHsh := tabulate s.hsh n; let aRev := tabulate s.rev n
   let aKey := tabulate s.key n; let aIsB := tabulate s.isB n; let aLife := tabulate s.life n
   let aFreed := tabulate s.freed n; let aWins := tabulate s.wins n; let aDels := tabulate s.dels n
-  let aOwn := tabulate s.ownRet n; let aUnl := tabulate s.unlAt n; let aTbl := tabulate s.tbl 300
+  let aOwn := tabulate s.ownRet n; let aUnl := tabulate s.unlAt n; let aTbl := tabulate s.tbl maxIdx
   let aAlloc := tabulate s.alloc 66; let aTh := tabulate s.th 64; let aCs := tabulate s.cs 64
-  { s with nxt := fromArr aNxt s.nxt, hsh := fromArr aHsh s.hsh, rev := fromArr aRev s.rev, key := fromArr aKey s.key,
-           isB := fromArr aIsB s.isB, life := fromArr aLife s.life, freed := fromArr aFreed s.freed,
-           wins := fromArr aWins s.wins, dels := fromArr aDels s.dels, ownRet := fromArr aOwn s.ownRet,
-           unlAt := fromArr aUnl s.unlAt, tbl := fromArr aTbl s.tbl, alloc := fromArr aAlloc s.alloc,
-           th := fromArr aTh s.th, cs := fromArr aCs s.cs }
+  let i0 : State := init
+  .ok { s with nxt := fromArr aNxt (i0.nxt), hsh := fromArr aHsh (i0.hsh), rev := fromArr aRev (i0.rev), key := fromArr aKey (i0.key),
+               isB := fromArr aIsB (i0.isB), life := fromArr aLife (i0.life), freed := fromArr aFreed (i0.freed),
+               wins := fromArr aWins (i0.wins), dels := fromArr aDels (i0.dels), ownRet := fromArr aOwn (i0.ownRet),
+               unlAt := fromArr aUnl (i0.unlAt), tbl := fromArr aTbl (i0.tbl), alloc := fromArr aAlloc (i0.alloc),
+               th := fromArr aTh (i0.th), cs := fromArr aCs (i0.cs) }
 
 def lblName : Label → String
   | .rlock => "rlock" | .runlock => "runlock" | .callAdd .. => "callAdd" | .callReplace .. => "callReplace"
@@ -80,21 +104,56 @@ def lblName : Label → String
   | .tblFree => "tblFree" | .orBkt => "orBkt" | .reclaim _ => "reclaim"
 
 /-- replay one label of the proven model for thread `t` -/
-def lbl (t : Nat) (l : Label) : M Unit := P.act fun g =>
+def lblG (t : Nat) (l : Label) (g : G) : Except String G :=
   if !g.model then .ok g else
   let g := { g with cov := bump g.cov ("m." ++ lblName l) }
   match step g.c g.s t l with
   | some (_, .crash) => .error s!"model: {repr l} dereferences NULL / freed / never linked memory (pc={repr (g.s.th t).pc})"
   | some (s', o) =>
-    let s'' := if (g.nsteps + 1) % 96 == 0 then compact s' else s'
-    .ok { g with s := s'', outs := (t, o) :: g.outs.filter (·.1 != t), nsteps := g.nsteps + 1 }
+    -- flatten the closures every 96 steps, and around a table free (its `freed` closure scans the whole level)
+    let now := (g.nsteps + 1) % 96 == 0 || l == .tblFree
+    match (if now then compact s' g.maxIdx else .ok s') with
+    | .ok s'' => .ok { g with s := s'', outs := (t, o) :: g.outs.filter (·.1 != t), nsteps := g.nsteps + 1 }
+    | .error e => .error e
   | none => .error s!"model step {repr l} not enabled for T{t} (pc={repr (g.s.th t).pc})"
 
+def lbl (t : Nat) (l : Label) : M Unit := P.act (lblG t l)
+
+def tblRange (o : Nat) : Nat × Nat := if o == 0 then (0, 1) else (2 ^ (o - 1), 2 ^ o)
+def orderOf (idx : Nat) : Nat := if idx == 0 then 0 else Nat.log2 idx + 1
+
+/-- "node5" (user node), "b6_0" (bucket 6 of generation 0 of its table) or, when the scenario names whole tables,
+"t3_1" / "t3_1+48" (byte offset into generation 1 of the table of order 3) -/
 def idOf (tok : String) : M Nat := do
   let g ← P.get
-  match g.names.find? (·.1 == tok) with
-  | some (_, i) => pure i
-  | none => P.fail s!"unknown object {tok}"
+  let bucket (o : Nat) (gen : String) (k : Nat) : M Nat :=
+    match g.tbls.find? (fun x => x.1 == o && x.2.1 == gen) with
+    | some (_, _, base) =>
+      let (lo, hi) := tblRange o
+      if k < hi - lo then pure (base + k) else P.fail s!"{tok}: beyond the end of its bucket table"
+    | none => P.fail s!"unknown bucket table in {tok}"
+  if tok.startsWith "node" then
+    match g.names.find? (·.1 == tok) with
+    | some (_, i) => pure i
+    | none => P.fail s!"unknown object {tok}"
+  else if tok.startsWith "b" then
+    match ((tok.drop 1).toString.splitOn "_") with
+    | [i, gen] => match i.toNat? with
+      | some idx => let o := orderOf idx; bucket o gen (idx - (tblRange o).1)
+      | none => P.fail s!"unknown object {tok}"
+    | _ => P.fail s!"unknown object {tok}"
+  else if tok.startsWith "t" then
+    let (nm, off) := match (tok.drop 1).toString.splitOn "+" with
+      | [a, b] => (a, b.toNat?.getD 1)
+      | _ => ((tok.drop 1).toString, 0)
+    match nm.splitOn "_" with
+    | [o, gen] => match o.toNat? with
+      | some o =>
+        if off % Gen.SIZEOF_LFHT_NODE != 0 then P.fail s!"{tok}: not the address of a bucket node's next word"
+        else bucket o gen (off / Gen.SIZEOF_LFHT_NODE)
+      | none => P.fail s!"unknown object {tok}"
+    | _ => P.fail s!"unknown object {tok}"
+  else P.fail s!"unknown object {tok}"
 
 def info (i : Nat) : M Info := do
   let g ← P.get
@@ -146,8 +205,9 @@ def chkMo (kind what tok : String) (want : Nat) : M Unit :=
 
 def bucketAt (idx : Nat) : M Nat := do
   let g ← P.get
-  match g.tbl.find? (·.1 == idx) with
-  | some (_, i) => pure i
+  let o := orderOf idx
+  match g.tbl.find? (·.1 == o) with
+  | some (_, base) => pure (base + (idx - (tblRange o).1))
   | none => P.fail s!"bucket_at({idx}): no table allocated for this index"
 
 /-- `LD <node>.next`: `rcu_dereference` (consume) in the traversals, `uatomic_load` (relaxed) in the assertions and in del -/
@@ -342,10 +402,7 @@ partial def addReplaceLoop (t node k bucket size : Nat) : M Nat := do
     let r ← replP t size n nx node
     if r == 0 then pure n else do cover "add_replace_retry"; addReplaceLoop t node k bucket size
 
-def callOp (t : Nat) (e : Ev) : M Unit := do
-  let g ← P.get
-  if g.rzBusy == 1 && e.arg 0 != "resize" then cover s!"{e.arg 0}_during_grow"
-  if g.rzBusy == 2 && e.arg 0 != "resize" then cover s!"{e.arg 0}_during_shrink"
+def callOp' (t : Nat) (e : Ev) : M Unit := do
   match e.arg 0 with
   | "add" | "add_unique" | "add_replace" =>
     let op := e.arg 0
@@ -377,14 +434,25 @@ def callOp (t : Nat) (e : Ev) : M Unit := do
     let node ← newNode (e.arg 1) h k
     let (old, oldNext) ← getIt t
     lbl t (.callReplace node h k)
-    let size ← ldSize t
-    let r ← replP t size old oldNext node
-    P.expect "RET" ["replace", toString r]; outIs t "RET replace" (.ret r)
+    -- cds_lfht_replace: NULL node, then reverse-hash and key comparison, all before the first shared access
+    let early : Option Int ←
+      if old == 0 then pure (some (-ENOENT))
+      else do
+        let oi ← info old
+        pure (if oi.rev != bitReverse64 h then some (-EINVAL) else if oi.key != k then some (-EINVAL) else none)
+    match early with
+    | some r => do
+      cover (if r == -ENOENT then "replace_null" else "replace_einval")
+      P.expect "RET" ["replace", toString r]; outIs t "RET replace" (.ret r)
+    | none => do
+      let size ← ldSize t
+      let r ← replP t size old oldNext node
+      P.expect "RET" ["replace", toString r]; outIs t "RET replace" (.ret r)
   | "del" =>
     let (old, _) ← getIt t
     lbl t .callDel
     let size ← ldSize t
-    let r ← delP t size old
+    let r ← if old == 0 then do cover "del_null"; pure (-ENOENT) else delP t size old      -- _cds_lfht_del: `if (!node) return -ENOENT`
     P.expect "RET" ["del", toString r]; outIs t "RET del" (.ret r)
   | "lookup" =>
     let h ← num (e.arg 1); let k ← num (e.arg 2)
@@ -414,35 +482,49 @@ def callOp (t : Nat) (e : Ev) : M Unit := do
   | "destroy" => modify fun g => { g with shutdown := true }
   | x => P.fail s!"unknown operation {x}"
 
-/-! ### resize: `init_table` / `fini_table` level by level (events between LOCK and UNLOCK of the resize mutex) -/
+def callOp (t : Nat) (e : Ev) : M Unit := do
+  let g ← P.get
+  if g.rzBusy == 1 && e.arg 0 != "resize" then cover s!"{e.arg 0}_during_grow"
+  if g.rzBusy == 2 && e.arg 0 != "resize" then cover s!"{e.arg 0}_during_shrink"
+  modify fun g => { g with inOp := (t, e.arg 0) :: g.inOp.filter (·.1 != t) }
+  callOp' t e
+  modify fun g => { g with inOp := g.inOp.filter (·.1 != t) }
 
-def tblRange (o : Nat) : Nat × Nat := if o == 0 then (0, 1) else (2 ^ (o - 1), 2 ^ o)
+/-! ### resize: `init_table` / `fini_table` level by level (events between LOCK and UNLOCK of the resize mutex) -/
 
 /-- a bucket table appears: name its nodes; returns the first node id -/
 def registerTable (o : Nat) (gen : String) : M Nat := do
   let g ← P.get
   let (lo, hi) := tblRange o
   let base := g.infos.size
-  let idxs := (List.range (hi - lo)).map (· + lo)
+  let nm (i : Nat) : String :=
+    if g.big then (if i == lo then s!"t{o}_{gen}" else s!"t{o}_{gen}+{(i - lo) * Gen.SIZEOF_LFHT_NODE}") else s!"b{i}_{gen}"
   modify fun g => { g with
-    names := idxs.map (fun i => (s!"b{i}_{gen}", base + (i - lo))) ++ g.names,
-    infos := idxs.foldl (fun a i => a.push { name := s!"b{i}_{gen}", rev := bitReverse64 i, key := 0, hash := i, isB := true }) g.infos,
-    tbl := idxs.map (fun i => (i, base + (i - lo))) ++ g.tbl.filter (fun p => p.1 < lo || p.1 ≥ hi) }
+    tbls := (o, gen, base) :: g.tbls,
+    infos := (List.range (hi - lo)).foldl (fun a k => a.push { name := nm (lo + k), rev := bitReverse64 (lo + k), key := 0, hash := lo + k, isB := true }) g.infos,
+    tbl := (o, base) :: g.tbl.filter (·.1 != o),
+    maxIdx := max g.maxIdx hi }
   pure base
 
 def unregisterTable (o : Nat) : M Unit :=
-  let (lo, hi) := tblRange o
-  modify fun g => { g with tbl := g.tbl.filter (fun p => p.1 < lo || p.1 ≥ hi) }
+  modify fun g => { g with tbl := g.tbl.filter (·.1 != o) }
 
 def flvEnd (what : String) : M Unit := P.expect "FLV_END" [what]
 
-/-- `init_table_populate_partition` / `remove_table_partition` for the whole level (no helper threads) -/
-def partition (t o : Nat) (grow : Bool) : M Unit := do
+/-- coverage: operations of other threads that are in flight while a resize level starts -/
+def coverInflight (t : Nat) (pre : String) : M Unit := do
+  let g ← P.get
+  for (u, op) in g.inOp do
+    if u != t then cover s!"{pre}_while_{op}"
+
+/-- `init_table_populate_partition` / `remove_table_partition` (ht, o, start, len): by the resizing thread itself for the
+whole level, or by a helper thread of `partition_resize_helper` for its share -/
+def partition (t o start len : Nat) (grow : Bool) : M Unit := do
   flvEnd "read_lock"
   lbl t .partBegin
-  let (lo, hi) := tblRange o
-  for j in List.range (hi - lo) do
-    let idx := lo + j
+  let (lo, _) := tblRange o
+  for j in List.range len do
+    let idx := lo + start + j
     let node ← bucketAt idx
     let parent ← bucketAt (idx - lo)
     if grow then do
@@ -456,15 +538,52 @@ def partition (t o : Nat) (grow : Bool) : M Unit := do
   lbl t .partEnd
   flvEnd "read_unlock"
 
+def tidOf (tok : String) : M Nat :=
+  match (tok.drop 1).toString.toNat? with
+  | some n => if tok.startsWith "T" then pure n else P.fail s!"bad thread name {tok}"
+  | none => P.fail s!"bad thread name {tok}"
+
+/-- `pthread_join` returned (seen at the parent's next event): the helper must have finished its partition -/
+def flushJoins (t : Nat) : M Unit := do
+  let g ← P.get
+  for (p, u) in g.pendingJoin.reverse do
+    if p == t then do lbl t (.join u); cover "helper_joined"
+  modify fun g => { g with pendingJoin := g.pendingJoin.filter (·.1 != t) }
+
+/-- `partition_resize_helper(ht, o, len, fct)` with worker threads: nr_threads = min(nr_cpus, len >> MIN_PARTITION_PER_THREAD_ORDER)
+`pthread_create`s of equal shares, then as many `pthread_join`s.  The first SPAWN event has been consumed (`first`). -/
+def helperSpawns (t o : Nat) (grow : Bool) (first : String) : M Unit := do
+  let g ← P.get
+  let (lo, hi) := tblRange o
+  let len := hi - lo
+  if len < 2 * Gen.MIN_PARTITION_PER_THREAD then P.fail s!"partition threads for a level of {len} buckets (the C text needs >= {2 * Gen.MIN_PARTITION_PER_THREAD})"
+  let nr := if g.cpus > 1 then min g.cpus (len / Gen.MIN_PARTITION_PER_THREAD) else 1
+  let plen := len / nr
+  for k in List.range nr do
+    let u ← if k == 0 then tidOf first else do
+      let a ← P.ev "SPAWN (pthread_create of the next partition thread)" fun e => if e.op == "SPAWN" then some e.args else none
+      tidOf (a.getD 0 "")
+    lbl t (.spawn u plen)
+    modify fun g => { g with helpers := (u, (o, k * plen, plen, grow)) :: g.helpers }
+    cover "helper_spawned"
+  for _ in List.range nr do
+    let a ← P.ev "JOIN (pthread_join of a partition thread)" fun e => if e.op == "JOIN" then some e.args else none
+    flushJoins t
+    let u ← tidOf (a.getD 0 "")
+    modify fun g => { g with pendingJoin := (t, u) :: g.pendingJoin }
+
 partial def rzBody (t : Nat) (cur : Nat) (grow : Bool) : M Unit := do
   let e ← P.ev "resize event" some
+  flushJoins t
   match e.op, e.args with
+  | "SPAWN", tn :: _ => do helperSpawns t cur grow tn; rzBody t cur grow
   | "UNLOCK", ["ht.rmutex"] => do lbl t .rzUnlock; modify fun g => { g with rzBusy := 0 }
   | "TBL_ALLOC", [o, gen] =>
     let o ← num o
     let base ← registerTable o gen
     lbl t (.tblAlloc base)
     cover "grow_level"
+    coverInflight t "grow"
     modify fun g => { g with rzBusy := 1 }
     rzBody t o true
   | "WMB", _ =>
@@ -475,6 +594,7 @@ partial def rzBody (t : Nat) (cur : Nat) (grow : Bool) : M Unit := do
     let g ← P.get
     if g.model && g.s.size != v then P.fail s!"ST ht.size {v} (shrink), model stores {g.s.size}"
     cover "shrink_level"
+    coverInflight t "shrink"
     modify fun g => { g with rzBusy := 2 }
     rzBody t (Nat.log2 v + 1) false
   | "ST", "ht.size" :: v :: mo :: _ =>     -- init_table: uatomic_store(&ht->size, 1UL << i, CMM_RELEASE)
@@ -485,7 +605,9 @@ partial def rzBody (t : Nat) (cur : Nat) (grow : Bool) : M Unit := do
     if g.model && g.s.size != v then P.fail s!"ST ht.size {v} (grow), model stores {g.s.size}"
     rzBody t cur grow
   | "FLV_BEGIN", ["sync"] => do lbl t .gpStart; flvEnd "sync"; lbl t .gpEnd; rzBody t cur grow
-  | "FLV_BEGIN", ["read_lock"] => do partition t cur grow; rzBody t cur grow
+  | "FLV_BEGIN", ["read_lock"] => do
+    let (lo, hi) := tblRange cur
+    partition t cur 0 (hi - lo) grow; rzBody t cur grow
   | "TBL_FREE", [o, _] => do
     let o ← num o
     let g ← P.get
@@ -499,17 +621,17 @@ partial def silentGrow (o : Nat) (gen : String) : M Unit := do
   let g ← P.get
   if !g.model then return
   lbl 0 .rzLock; lbl 0 (.tblAlloc base); lbl 0 .partBegin
-  let rec run (fuel : Nat) : M Unit := do
-    let g ← P.get
+  -- one internal action for the whole level (the runner bounds the number of consecutive internal actions)
+  let rec run (fuel : Nat) (g : G) : Except String G :=
     match fuel, (g.s.th 0).pc with
-    | 0, _ => P.fail "internal: silent populate does not terminate"
-    | _, .pEnd => pure ()
-    | f+1, .aHead => do lbl 0 .ldHeadA; run f
-    | f+1, .aNext => do lbl 0 .ldNextA; run f
-    | f+1, .aCas => do lbl 0 .casIns; run f
-    | f+1, .aGc => do lbl 0 .casGc; run f
-    | _, pc => P.fail s!"internal: silent populate at {repr pc}"
-  run 100000
+    | 0, _ => .error "internal: silent populate does not terminate"
+    | _, .pEnd => .ok g
+    | f+1, .aHead => do run f (← lblG 0 .ldHeadA g)
+    | f+1, .aNext => do run f (← lblG 0 .ldNextA g)
+    | f+1, .aCas => do run f (← lblG 0 .casIns g)
+    | f+1, .aGc => do run f (← lblG 0 .casGc g)
+    | _, pc => .error s!"internal: silent populate at {repr pc}"
+  P.act (run 1000000)
   lbl 0 .partEnd; lbl 0 .stSizeGrow; lbl 0 .rzUnlock
 
 partial def threadLoop (t : Nat) : M Unit := do
@@ -517,7 +639,16 @@ partial def threadLoop (t : Nat) : M Unit := do
   let g ← P.get
   if g.shutdown then threadLoop t else
   match e.op, e.args with
-  | "FLV_BEGIN", ["read_lock"] => do flvEnd "read_lock"; lbl t .rlock; threadLoop t
+  | "FLV_BEGIN", ["read_lock"] =>
+    match g.helpers.find? (·.1 == t) with
+    | some (_, (o, start, len, grow)) => do      -- partition_resize_thread: work->fct(ht, i, start, len)
+      modify fun g => { g with helpers := g.helpers.filter (·.1 != t) }
+      partition t o start len grow
+      cover "helper_partition"
+      threadLoop t
+    | none => do flvEnd "read_lock"; lbl t .rlock; threadLoop t
+  | "SPAWN", _ => threadLoop t      -- threads created outside a resize (workers of the scenario, the work-queue thread)
+  | "JOIN", _ => threadLoop t
   | "FLV_BEGIN", ["read_unlock"] => do lbl t .runlock; setIt t (0, {}); flvEnd "read_unlock"; threadLoop t
   | "FLV_BEGIN", [w] => do flvEnd w; threadLoop t
   | "CALL", _ => do callOp t e; threadLoop t
@@ -543,7 +674,7 @@ def skipLoc (l : String) : Bool :=
 
 def skipEv (e : Ev) : Bool :=
   match e.op with
-  | "CB" | "MB" | "RMB" | "MBAR" | "RELAX" | "POLL" | "SPAWN" | "JOIN" | "THREAD_EXIT" | "FUTEX_WAIT" | "FUTEX_WOKEN"
+  | "CB" | "MB" | "RMB" | "MBAR" | "RELAX" | "POLL" | "THREAD_EXIT" | "FUTEX_WAIT" | "FUTEX_WOKEN"
   | "FUTEX_WAKE" => true
   | "LOCK" | "UNLOCK" | "TRYLOCK" => e.arg 0 != "ht.rmutex"
   | "LD" | "ST" | "CAS" | "XCHG" | "ADD" | "SUB" | "ADDR" | "SUBR" | "AND" | "OR" => skipLoc (e.arg 0)
@@ -556,6 +687,8 @@ structure Top where
 def cfgLine (g : G) (ws : List String) : G :=
   ws.foldl (fun g w => match w.splitOn "=" with
     | ["model", v] => { g with model := v == "1" }
+    | ["big", "1"] => { g with big := true, infos := #[default, { name := "t0_0", rev := 0, key := 0, hash := 0, isB := true }] }
+    | ["cpus", v] => { g with cpus := v.toNat?.getD 1 }
     | _ => g) g
 
 end LfhtC
@@ -568,7 +701,8 @@ def main : IO UInt32 := do
     | _ => match parseEv ws with
       | some e =>
         let fresh := fun (t : Nat) (_ : G) => (threadLoop t).run
-        if e.op == "FLV_END" then
+        if tp.r.g.shutdown then .ok tp       -- after `CALL destroy`: teardown is not part of the model (C09 / quarantine oracle)
+        else if e.op == "FLV_END" then
           (feed fresh tp.r e).map fun r' => { r := r', inFlv := tp.inFlv.filter (· != e.tid) }
         else if tp.inFlv.contains e.tid then .ok tp
         else if e.op == "FLV_BEGIN" then
